@@ -349,16 +349,18 @@ impl Protocol for V4 {
             // currently we can't conditionally set them based on v5 or v4,
             // so we ignore them, as properties can't be there in v4.
             Packet::ConnAck(connack, _) => connack::write(&connack, buffer)?,
-            Packet::Publish(publish, None) => publish::write(&publish, buffer)?,
-            Packet::PubAck(puback, None) => puback::write(&puback, buffer)?,
+            // MQTT 3.1.1 has no properties: whatever a message that originated from
+            // an MQTT 5 client carries is dropped towards a 3.1.1 connection
+            Packet::Publish(publish, _) => publish::write(&publish, buffer)?,
+            Packet::PubAck(puback, _) => puback::write(&puback, buffer)?,
             Packet::Subscribe(subscribe, None) => subscribe::write(&subscribe, buffer)?,
-            Packet::SubAck(suback, None) => suback::write(&suback, buffer)?,
-            Packet::PubRec(pubrec, None) => pubrec::write(&pubrec, buffer)?,
-            Packet::PubRel(pubrel, None) => pubrel::write(&pubrel, buffer)?,
-            Packet::PubComp(pubcomp, None) => pubcomp::write(&pubcomp, buffer)?,
+            Packet::SubAck(suback, _) => suback::write(&suback, buffer)?,
+            Packet::PubRec(pubrec, _) => pubrec::write(&pubrec, buffer)?,
+            Packet::PubRel(pubrel, _) => pubrel::write(&pubrel, buffer)?,
+            Packet::PubComp(pubcomp, _) => pubcomp::write(&pubcomp, buffer)?,
             Packet::Unsubscribe(unsubscribe, None) => unsubscribe::write(&unsubscribe, buffer)?,
-            Packet::UnsubAck(unsuback, None) => unsuback::write(&unsuback, buffer)?,
-            Packet::Disconnect(disconnect, None) => disconnect::write(&disconnect, buffer)?,
+            Packet::UnsubAck(unsuback, _) => unsuback::write(&unsuback, buffer)?,
+            Packet::Disconnect(disconnect, _) => disconnect::write(&disconnect, buffer)?,
             Packet::PingReq(pingreq) => ping::pingreq::write(buffer)?,
             Packet::PingResp(pingresp) => ping::pingresp::write(buffer)?,
             _ => unreachable!(
